@@ -1,4 +1,5 @@
 import SaVerif.Lemmas.ExprCore
+import SaVerif.Model.ExprSem
 /-!
 The API-call fragment (`NumU` / `BoolU`) and the proof that `build` (the constructors applied
 in Python's evaluation order) yields elements of the core fragment that are well grouped —
@@ -12,16 +13,31 @@ def arithK (k : BinK) : Bool := k = .add || k = .sub || k = .mul || k = .mod
 def cmpK (k : BinK) : Bool :=
   k = .eq || k = .ne || k = .lt || k = .le || k = .gt || k = .ge || k = .is_ || k = .isnot
 
-/-- numeric API-call trees: integer / numeric columns and literals, `+ - * %`, unary minus -/
+mutual
+/-- numeric API-call trees: integer / numeric columns, literals and scalar subqueries, `+ - * %`,
+    unary minus, `cast(x, Integer / Numeric)`, `func.coalesce(...)`, searched and simple `case` -/
 def NumU : U → Bool
   | .col _ ty => ty = .int || ty = .num
   | .li _ => true
   | .ln _ => true
   | .bin k a b => arithK k && NumU a && NumU b
   | .neg a => NumU a
+  | .subq _ ty => ty = .int || ty = .num
+  | .cast ty a => (ty = .int || ty = .num) && NumU a
+  | .coalesce cs => !cs.isEmpty && NumUList cs
+  | .case_ v ws e =>
+    !ws.isEmpty &&
+      (if isAbsentU v then SearchedU ws else NumU v && NumUList ws && decide (ws.length % 2 = 0)) &&
+      (isAbsentU e || NumU e)
   | _ => false
-
-mutual
+def NumUList : List U → Bool
+  | [] => true
+  | u :: us => NumU u && NumUList us
+/-- `(condition, result)` pairs of a searched CASE, flattened -/
+def SearchedU : List U → Bool
+  | [] => true
+  | [_] => false
+  | c :: r :: rest => BoolU c && NumU r && SearchedU rest
 /-- boolean API-call trees: comparisons and IS / IS NOT of numeric trees, `== NULL`-style tests,
     `and_` / `or_` of one or more boolean trees, `~` -/
 def BoolU : U → Bool
@@ -45,6 +61,10 @@ def numShape : SaExpr → Bool
   | .binary _ _ _ _ _ _ => true
   | .clist _ _ _ false _ => true
   | .unary _ _ _ => true
+  | .subq _ _ => true
+  | .func _ _ _ => true
+  | .cast _ _ => true
+  | .case_ _ _ _ _ => true
   | _ => false
 
 structure NumE (e : SaExpr) : Prop where
@@ -157,10 +177,10 @@ theorem flattened_core : ∀ l : SaExpr, Core l = true → WG l = true →
   | .false_, hc, hw => ⟨by intro c h; simp [flattened] at h; subst h; exact ⟨hc, hw⟩, by simp [flattened]⟩
   | .unary _ _ _, hc, hw => ⟨by intro c h; simp [flattened] at h; subst h; exact ⟨hc, hw⟩, by simp [flattened]⟩
   | .asbool _ _ _, hc, _ => by simp [Core] at hc
-  | .case_ _ _ _ _, hc, _ => by simp [Core] at hc
-  | .cast _ _, hc, _ => by simp [Core] at hc
-  | .func _ _ _, hc, _ => by simp [Core] at hc
-  | .subq _ _, hc, _ => by simp [Core] at hc
+  | .case_ _ _ _ _, hc, hw => ⟨by intro c h; simp [flattened] at h; subst h; exact ⟨hc, hw⟩, by simp [flattened]⟩
+  | .cast _ _, hc, hw => ⟨by intro c h; simp [flattened] at h; subst h; exact ⟨hc, hw⟩, by simp [flattened]⟩
+  | .func _ _ _, hc, hw => ⟨by intro c h; simp [flattened] at h; subst h; exact ⟨hc, hw⟩, by simp [flattened]⟩
+  | .subq _ _, hc, hw => ⟨by intro c h; simp [flattened] at h; subst h; exact ⟨hc, hw⟩, by simp [flattened]⟩
   | .inlist _ _ _, hc, _ => by simp [Core] at hc
   | .inrows _ _ _, hc, _ => by simp [Core] at hc
   | .tuple_ _, hc, _ => by simp [Core] at hc
@@ -478,10 +498,10 @@ theorem flattened_not_grouped (op : Op) (hop : coreList op = true) :
   | .true_, _, _, ho => by simp [operatorOf] at ho
   | .false_, _, _, ho => by simp [operatorOf] at ho
   | .asbool _ _ _, hc, _, _ => by simp [Core] at hc
-  | .case_ _ _ _ _, hc, _, _ => by simp [Core] at hc
-  | .cast _ _, hc, _, _ => by simp [Core] at hc
-  | .func _ _ _, hc, _, _ => by simp [Core] at hc
-  | .subq _ _, hc, _, _ => by simp [Core] at hc
+  | .case_ _ _ _ _, _, _, ho => by simp [operatorOf] at ho
+  | .cast _ _, _, _, ho => by simp [operatorOf] at ho
+  | .func _ _ _, _, _, ho => by simp [operatorOf] at ho
+  | .subq _ _, _, _, ho => by simp [operatorOf] at ho
   | .inlist _ _ _, hc, _, _ => by simp [Core] at hc
   | .inrows _ _ _, hc, _, _ => by simp [Core] at hc
   | .tuple_ _, hc, _, _ => by simp [Core] at hc
@@ -588,15 +608,15 @@ theorem pyReflected_num (x y : SaExpr) (hy : NumE y) : pyReflected x y = false :
   | bind _ _ => cases x <;> simp [pyReflected]
   | binary _ _ _ _ _ _ => cases x <;> simp [pyReflected]
   | unary _ _ _ => cases x <;> simp [pyReflected]
+  | case_ _ _ _ _ => cases x <;> simp [pyReflected]
+  | cast _ _ => cases x <;> simp [pyReflected]
+  | func _ _ _ => cases x <;> simp [pyReflected]
+  | subq _ _ => cases x <;> simp [pyReflected]
   | null => simp [numShape] at hs
   | true_ => simp [numShape] at hs
   | false_ => simp [numShape] at hs
   | asbool _ _ _ => simp [numShape] at hs
   | grouping _ => simp [numShape] at hs
-  | case_ _ _ _ _ => simp [numShape] at hs
-  | cast _ _ => simp [numShape] at hs
-  | func _ _ _ => simp [numShape] at hs
-  | subq _ _ => simp [numShape] at hs
   | inlist _ _ _ => simp [numShape] at hs
   | inrows _ _ _ => simp [numShape] at hs
   | tuple_ _ => simp [numShape] at hs
@@ -604,9 +624,167 @@ theorem pyReflected_num (x y : SaExpr) (hy : NumE y) : pyReflected x y = false :
   | ilikeOperand _ => simp [numShape] at hs
   | absent => simp [numShape] at hs
 
+theorem isAbsentU_eq {u : U} (h : isAbsentU u = true) : u = .absent := by
+  cases u <;> first | rfl | (simp [isAbsentU] at h)
+
+theorem numE_not_absent {x : SaExpr} (h : NumE x) : isAbsent x = false := by
+  have := h.shape
+  cases x <;> simp [numShape] at this <;> rfl
+
+theorem numU_not_absent {u : U} (h : NumU u = true) : isAbsentU u = false := by
+  cases u <;> first | rfl | (simp [NumU] at h)
+
+/-- `x.self_group()` (no `against`) of a well grouped core element -/
+theorem selfGroup_none_core (x : SaExpr) (hc : Core x = true) (hw : WG x = true) :
+    Core (selfGroup none x) = true ∧ WG (selfGroup none x) = true := by
+  unfold selfGroup
+  by_cases hg : wouldGroup none x = true
+  · simp only [hg, if_true]
+    exact ⟨by simpa [Core] using hc, by simpa [WG] using hw⟩
+  · have hg' : wouldGroup none x = false := by simpa using hg
+    simp only [hg', Bool.false_eq_true, if_false]
+    have hcol : columnSelfGroup none x = x := by simp [columnSelfGroup]
+    cases x <;> first
+      | exact ⟨hc, hw⟩
+      | (show Core (columnSelfGroup _ _) = true ∧ WG (columnSelfGroup _ _) = true
+         rw [hcol]; exact ⟨hc, hw⟩)
+
+theorem map_selfGroup_all (op : Op) (hb : boolCtx op = false) :
+    ∀ cs : List SaExpr, CoreList cs = true → WGAll cs = true →
+      CoreList (cs.map (selfGroup (some op))) = true ∧ WGAll (cs.map (selfGroup (some op))) = true
+  | [], _, _ => ⟨rfl, rfl⟩
+  | c :: cs, hc, hw => by
+    simp only [CoreList, WGAll, Bool.and_eq_true] at hc hw
+    obtain ⟨c1, w1, _⟩ := selfGroup_core op c hc.1 hw.1 (Or.inl hb)
+    obtain ⟨c2, w2⟩ := map_selfGroup_all op hb cs hc.2 hw.2
+    simp [List.map_cons, CoreList, WGAll, c1, w1, c2, w2]
+
+theorem coreList_of_numE : ∀ es : List SaExpr, (∀ e ∈ es, NumE e) → CoreList es = true ∧ WGAll es = true
+  | [], _ => ⟨rfl, rfl⟩
+  | e :: es, h => by
+    obtain ⟨a, b⟩ := coreList_of_numE es (fun x hx => h x (by simp [hx]))
+    simp [CoreList, WGAll, (h e (by simp)).core, (h e (by simp)).wg, a, b]
+
+/-- `func.<name>(x, …)` of a `ReturnTypeFromArgs` function over numeric elements -/
+theorem mkFunc_num (name : String) (x : SaExpr) (xs : List SaExpr) (h : ∀ e ∈ x :: xs, NumE e) :
+    NumE (mkFunc name (x :: xs)) := by
+  obtain ⟨hc, hw⟩ := coreList_of_numE (x :: xs) h
+  obtain ⟨c, w⟩ := map_selfGroup_all .comma_op rfl (x :: xs) hc hw
+  have hx := h x (by simp)
+  have hne : tyOf x ≠ .null := by
+    rcases numTy_cases hx.ty with h' | h' <;> rw [h'] <;> simp
+  refine ⟨?_, ?_, ?_, rfl⟩
+  · simp only [mkFunc, Core, Bool.and_eq_true]
+    exact ⟨by simp, c⟩
+  · simpa [mkFunc, WG] using w
+  · simp only [mkFunc, List.find?_cons, hne, ne_eq, not_false_eq_true, decide_true, tyOf]
+    exact hx.ty
+
+theorem groupConds_core : ∀ ws : List SaExpr, CoreList ws = true → WGAll ws = true →
+    CoreList (groupConds ws) = true ∧ WGAll (groupConds ws) = true ∧
+      (groupConds ws).length = ws.length
+  | [], _, _ => ⟨rfl, rfl, rfl⟩
+  | [c], hc, hw => ⟨hc, hw, rfl⟩
+  | c :: r :: rest, hc, hw => by
+    simp only [CoreList, WGAll, Bool.and_eq_true] at hc hw
+    obtain ⟨c1, w1⟩ := selfGroup_none_core c hc.1 hw.1
+    obtain ⟨c2, w2, l2⟩ := groupConds_core rest hc.2.2 hw.2.2
+    simp [groupConds, CoreList, WGAll, c1, w1, c2, w2, l2, hc.2.1, hw.2.1]
+
+theorem caseResults_groupConds : ∀ ws : List SaExpr, caseResults (groupConds ws) = caseResults ws
+  | [] => rfl
+  | [_] => rfl
+  | c :: r :: rest => by simp [groupConds, caseResults, caseResults_groupConds rest]
+
+/-- `case(…)` whose results are numeric elements -/
+theorem mkCase_num (v : SaExpr) (ws : List SaExpr) (e : SaExpr)
+    (hv : isAbsent v = true ∨ NumE v) (hc : CoreList ws = true) (hw : WGAll ws = true)
+    (hlen : 2 ≤ ws.length) (heven : ws.length % 2 = 0)
+    (hres : ∀ r ∈ caseResults ws, numTy (tyOf r) = true) (hne : caseResults ws ≠ [])
+    (he : isAbsent e = true ∨ NumE e) : NumE (mkCase v ws e) := by
+  obtain ⟨c, w, l⟩ := groupConds_core ws hc hw
+  have hvc : (isAbsent v || Core v) = true ∧ WG v = true := by
+    rcases hv with h | h
+    · cases v <;> simp [isAbsent] at h
+      exact ⟨rfl, rfl⟩
+    · simp [h.core, h.wg]
+  have hec : (isAbsent e || Core e) = true ∧ WG e = true := by
+    rcases he with h | h
+    · cases e <;> simp [isAbsent] at h
+      exact ⟨rfl, rfl⟩
+    · simp [h.core, h.wg]
+  refine ⟨?_, ?_, ?_, rfl⟩
+  · simp only [mkCase, Core, Bool.and_eq_true, decide_eq_true_eq]
+    rw [l]
+    exact ⟨⟨⟨⟨hvc.1, c⟩, hlen⟩, heven⟩, hec.1⟩
+  · simp only [mkCase, WG, Bool.and_eq_true]
+    exact ⟨⟨hvc.2, w⟩, hec.2⟩
+  · simp only [mkCase, tyOf]
+    cases hf : (caseResults ws).reverse.find? (fun r => decide (tyOf r ≠ .null)) with
+    | some r =>
+      have hm := List.mem_of_find?_eq_some hf
+      simp only [hf]
+      exact hres r (by simpa using hm)
+    | none =>
+      exfalso
+      cases hr : caseResults ws with
+      | nil => exact hne hr
+      | cons r rs =>
+        have hall := List.find?_eq_none.mp hf r (by simp [hr])
+        have ht := hres r (by simp [hr])
+        rcases numTy_cases ht with h' | h' <;> simp [h'] at hall
+
+theorem buildList_length : ∀ (us : List U) (es : List SaExpr), buildList us = some es →
+    es.length = us.length
+  | [], es, hb => by
+    simp only [buildList, Option.some.injEq] at hb; subst hb; rfl
+  | u :: us, es, hb => by
+    simp only [buildList] at hb
+    cases h1 : build u with
+    | none => simp [h1] at hb
+    | some x =>
+      cases h2 : buildList us with
+      | none => simp [h1, h2] at hb
+      | some xs =>
+        simp only [h1, h2, Option.some.injEq] at hb; subst hb
+        simp [buildList_length us xs h2]
+
+theorem cmp_reflected_cmp : ∀ k : BinK, cmpK k = true → ∀ k', k.reflected = some k' → cmpK k' = true := by
+  intro k h k' hk
+  cases k <;> simp [cmpK] at h <;> (simp [BinK.reflected] at hk; try (subst hk; rfl))
+
+/-- what `build` yields for the flattened `(condition, result)` pairs of a searched CASE -/
+structure SearchedE (es : List SaExpr) : Prop where
+  core : CoreList es = true
+  wg : WGAll es = true
+  even : es.length % 2 = 0
+  res : ∀ r ∈ caseResults es, numTy (tyOf r) = true
+
+theorem caseResults_of_num : ∀ es : List SaExpr, (∀ e ∈ es, NumE e) →
+    ∀ r ∈ caseResults es, numTy (tyOf r) = true
+  | [], _ => by intro r hr; simp [caseResults] at hr
+  | [_], _ => by intro r hr; simp [caseResults] at hr
+  | c :: r :: rest, h => by
+    intro r' hr
+    simp only [caseResults, List.mem_cons] at hr
+    rcases hr with hr | hr
+    · subst hr; exact (h r' (by simp)).ty
+    · exact caseResults_of_num rest (fun x hx => h x (by simp [hx])) r' hr
+
+theorem caseResults_ne_nil : ∀ es : List SaExpr, 2 ≤ es.length → caseResults es ≠ []
+  | [], h => by simp at h
+  | [_], h => by simp at h
+  | _ :: _ :: _, _ => by simp [caseResults]
+
+mutual
 /-- **build_num**: numeric API-call trees build numeric, well grouped core elements -/
 theorem build_num : ∀ (u : U) (e : SaExpr), NumU u = true → build u = some e → NumE e
   | .col n ty, e, hu, hb => by
+    simp only [build, Option.some.injEq] at hb; subst hb
+    refine ⟨rfl, rfl, ?_, rfl⟩
+    have : ty = .int ∨ ty = .num := by simpa [NumU] using hu
+    rcases this with h | h <;> subst h <;> rfl
+  | .subq n ty, e, hu, hb => by
     simp only [build, Option.some.injEq] at hb; subst hb
     refine ⟨rfl, rfl, ?_, rfl⟩
     have : ty = .int ∨ ty = .num := by simpa [NumU] using hu
@@ -624,6 +802,76 @@ theorem build_num : ∀ (u : U) (e : SaExpr), NumU u = true → build u = some e
     | some x =>
       simp only [ha, Option.map_some, Option.some.injEq] at hb; subst hb
       exact negImpl_num x (build_num a x (by simpa [NumU] using hu) ha)
+  | .cast ty a, e, hu, hb => by
+    simp only [NumU, Bool.and_eq_true, Bool.or_eq_true, decide_eq_true_eq] at hu
+    simp only [build] at hb
+    cases ha : build a with
+    | none => simp [ha] at hb
+    | some x =>
+      simp only [ha, Option.map_some, Option.some.injEq] at hb; subst hb
+      have nx := build_num a x hu.2 ha
+      refine ⟨by simpa [Core] using nx.core, by simpa [WG] using nx.wg, ?_, rfl⟩
+      rcases hu.1 with h | h <;> subst h <;> rfl
+  | .coalesce cs, e, hu, hb => by
+    simp only [NumU, Bool.and_eq_true, Bool.not_eq_true'] at hu
+    simp only [build] at hb
+    cases hl : buildList cs with
+    | none => simp [hl] at hb
+    | some es =>
+      simp only [hl, Option.map_some, Option.some.injEq] at hb; subst hb
+      have hn := build_numList cs es hu.2 hl
+      cases es with
+      | nil =>
+        have := buildList_length cs [] hl
+        cases cs with
+        | nil => simp at hu
+        | cons _ _ => simp at this
+      | cons x xs => exact mkFunc_num _ x xs hn
+  | .case_ v ws el, e, hu, hb => by
+    simp only [NumU, Bool.and_eq_true, Bool.not_eq_true', Bool.or_eq_true] at hu
+    obtain ⟨⟨hne, hvw⟩, hel⟩ := hu
+    simp only [build] at hb
+    cases hv : build v with
+    | none => simp [hv] at hb
+    | some v' =>
+      cases hl : buildList ws with
+      | none => simp [hv, hl] at hb
+      | some es =>
+        cases he : build el with
+        | none => simp [hv, hl, he] at hb
+        | some e' =>
+          simp only [hv, hl, he, Option.some.injEq] at hb; subst hb
+          have hlen := buildList_length ws es hl
+          have hE : isAbsent e' = true ∨ NumE e' := by
+            rcases hel with h | h
+            · have := isAbsentU_eq h; subst this
+              simp only [build, Option.some.injEq] at he; subst he
+              exact Or.inl rfl
+            · exact Or.inr (build_num el e' h he)
+          by_cases hav : isAbsentU v = true
+          · simp only [hav, if_true] at hvw
+            have := isAbsentU_eq hav; subst this
+            simp only [build, Option.some.injEq] at hv; subst hv
+            have hs := build_searched ws es hvw hl
+            have h2 : 2 ≤ es.length := by
+              have h0 : es.length ≠ 0 := by
+                rw [hlen]; cases ws <;> simp at hne ⊢
+              have := hs.even
+              omega
+            exact mkCase_num _ es e' (Or.inl rfl) hs.core hs.wg h2 hs.even hs.res
+              (caseResults_ne_nil es h2) hE
+          · have hav' : isAbsentU v = false := by simpa using hav
+            simp only [hav', Bool.false_eq_true, if_false, Bool.and_eq_true, decide_eq_true_eq] at hvw
+            have nv := build_num v v' hvw.1.1 hv
+            have hn := build_numList ws es hvw.1.2 hl
+            obtain ⟨hc, hw⟩ := coreList_of_numE es hn
+            have h2 : 2 ≤ es.length := by
+              have h0 : es.length ≠ 0 := by
+                rw [hlen]; cases ws <;> simp at hne ⊢
+              have := hvw.2
+              omega
+            exact mkCase_num v' es e' (Or.inr nv) hc hw h2 (by rw [hlen]; exact hvw.2)
+              (caseResults_of_num es hn) (caseResults_ne_nil es h2) hE
   | .bin k a b, e, hu, hb => by
     simp only [NumU, Bool.and_eq_true] at hu
     simp only [build] at hb
@@ -646,10 +894,6 @@ theorem build_num : ∀ (u : U) (e : SaExpr), NumU u = true → build u = some e
   | .between _ _ _, _, hu, _ => by simp [NumU] at hu
   | .and_ _, _, hu, _ => by simp [NumU] at hu
   | .or_ _, _, hu, _ => by simp [NumU] at hu
-  | .case_ _ _ _, _, hu, _ => by simp [NumU] at hu
-  | .cast _ _, _, hu, _ => by simp [NumU] at hu
-  | .coalesce _, _, hu, _ => by simp [NumU] at hu
-  | .subq _ _, _, hu, _ => by simp [NumU] at hu
   | .inOp _ _ _, _, hu, _ => by simp [NumU] at hu
   | .tupleIn _ _ _, _, hu, _ => by simp [NumU] at hu
   | .pi _, _, hu, _ => by simp [NumU] at hu
@@ -657,16 +901,61 @@ theorem build_num : ∀ (u : U) (e : SaExpr), NumU u = true → build u = some e
   | .strop _ _ _ _, _, hu, _ => by simp [NumU] at hu
   | .absent, _, hu, _ => by simp [NumU] at hu
 
-end SaVerif.Expr
+theorem build_numList : ∀ (us : List U) (es : List SaExpr), NumUList us = true →
+    buildList us = some es → ∀ e ∈ es, NumE e
+  | [], es, _, hb => by
+    simp only [buildList, Option.some.injEq] at hb; subst hb
+    intro e he; simp at he
+  | u :: us, es, hu, hb => by
+    simp only [NumUList, Bool.and_eq_true] at hu
+    simp only [buildList] at hb
+    cases h1 : build u with
+    | none => simp [h1] at hb
+    | some x =>
+      cases h2 : buildList us with
+      | none => simp [h1, h2] at hb
+      | some xs =>
+        simp only [h1, h2, Option.some.injEq] at hb; subst hb
+        intro e he
+        simp only [List.mem_cons] at he
+        rcases he with he | he
+        · subst he; exact build_num u e hu.1 h1
+        · exact build_numList us xs hu.2 h2 e he
 
-namespace SaVerif.Expr
-open SaVerif.Expr.Gen SaVerif.Pratt SaExpr
+theorem build_searched : ∀ (us : List U) (es : List SaExpr), SearchedU us = true →
+    buildList us = some es → SearchedE es
+  | [], es, _, hb => by
+    simp only [buildList, Option.some.injEq] at hb; subst hb
+    exact ⟨rfl, rfl, rfl, by intro r hr; simp [caseResults] at hr⟩
+  | [_], _, hu, _ => by simp [SearchedU] at hu
+  | c :: r :: rest, es, hu, hb => by
+    simp only [SearchedU, Bool.and_eq_true] at hu
+    simp only [buildList] at hb
+    cases h1 : build c with
+    | none => simp [h1] at hb
+    | some c' =>
+      cases h2 : build r with
+      | none => simp [h1, h2] at hb
+      | some r' =>
+        cases h3 : buildList rest with
+        | none => simp [h1, h2, h3] at hb
+        | some rest' =>
+          simp only [h1, h2, h3, Option.some.injEq] at hb; subst hb
+          have bc := build_bool c c' hu.1.1 h1
+          have nr := build_num r r' hu.1.2 h2
+          have ih := build_searched rest rest' hu.2 h3
+          refine ⟨?_, ?_, ?_, ?_⟩
+          · simp [CoreList, bc.core, nr.core, ih.core]
+          · simp [WGAll, bc.wg, nr.wg, ih.wg]
+          · have := ih.even
+            simp only [List.length_cons]
+            omega
+          · intro x hx
+            simp only [caseResults, List.mem_cons] at hx
+            rcases hx with hx | hx
+            · subst hx; exact nr.ty
+            · exact ih.res x hx
 
-theorem cmp_reflected_cmp : ∀ k : BinK, cmpK k = true → ∀ k', k.reflected = some k' → cmpK k' = true := by
-  intro k h k' hk
-  cases k <;> simp [cmpK] at h <;> (simp [BinK.reflected] at hk; try (subst hk; rfl))
-
-mutual
 /-- **build_bool**: boolean API-call trees build well grouped core elements -/
 theorem build_bool : ∀ (u : U) (e : SaExpr), BoolU u = true → build u = some e → BoolE e
   | .bin k a b, e, hu, hb => by
